@@ -80,6 +80,8 @@ def run_program(ctx, spec, prog):
     if p.returncode != 0:
         return {"program": prog["name"], "error": "corpus build failed: " + p.stderr.decode()[-1500:]}
     info = json.loads(p.stdout.decode())
+    if info.get("missing_functions"):
+        return {"program": prog["name"], "missing_functions": info["missing_functions"], "info": info, "dir": d, "harnesses": [], "is_variant": True}
     res_path = os.path.join(d, "res.json")
     timeout_ms = 60000 if ctx.tier == "quick" else 300000
     g = [os.path.join(VERIF, "bin/gosym"), "-dir", d, "-pkg", "./" + info["pkg"], "-run", spec["harness"], "-labels", spec["labels"],
@@ -156,6 +158,19 @@ def confirms(obl, report):
 
 def judge(ctx, spec, res):
     """turn solver verdicts of one program into violations / errors / known findings."""
+    if res.get("missing_functions"):
+        # variant B's generated file lacks functions of a compared type: the two variants cannot behave alike
+        bd = os.path.join(VERIF, "replays", ctx.prop, "%s-missing-functions-%d" % (re.sub(r"[^A-Za-z0-9]+", "_", res["program"]), len(ctx.violations) + 1))
+        shutil.rmtree(bd, ignore_errors=True)
+        os.makedirs(bd)
+        json.dump({"property": ctx.prop, "level": "M", "program": res["program"], "missing_functions": res["missing_functions"]}, open(os.path.join(bd, "replay.json"), "w"), indent=1)
+        gen = res["info"].get("generated_file")
+        if gen and os.path.exists(gen):
+            shutil.copy(gen, os.path.join(bd, "generated_terraform.go.txt"))
+        open(os.path.join(bd, "replay.sh"), "w").write("#!/bin/sh\ncd %s && exec python3 check.py %s --replay %s\n" % (VERIF, ctx.prop, bd))
+        os.chmod(os.path.join(bd, "replay.sh"), 0o755)
+        ctx.violations.append(("%s/diff: the variant's generated file has no %s" % (ctx.prop, ", ".join(res["missing_functions"])), res["program"], bd))
+        return
     if "error" in res:
         ctx.errors.append("%s: %s" % (res["program"], res["error"]))
         return
@@ -316,6 +331,16 @@ def do_replay(prop, path):
         import klevel
         info["path"] = path
         return klevel.replay_bundle(ctx, info)
+    if info.get("level") == "M":
+        d = os.path.join(ctx.work, "m")
+        p = sh([os.path.join(VERIF, "bin/corpus"), "build", "-variant", info["program"], "-plugin", ctx.plugin, "-out", d, "-kl", "1", "-km", "1"], timeout=600)
+        miss = json.loads(p.stdout.decode()).get("missing_functions")
+        if miss:
+            print("missing functions:", miss)
+            print("VIOLATION property=%s replay=%s" % (prop, path))
+            return 1
+        print("replay does not fail on this tree")
+        return 0
     if info.get("level") == "O":
         p = sh([os.path.join(VERIF, "bin/corpus"), "observe", "-plugin", ctx.plugin, "-out", os.path.join(ctx.work, "observe"), info["mode"]], timeout=900)
         for o in json.loads(p.stdout.decode()):
